@@ -17,86 +17,7 @@ use vstd::std_specs::cmp::OrdSpec;
 //@map /&version\.to_be_bytes\(\)/ => &vx_be8_u64(version)
 verus! {
 
-pub enum Error { VersionMismatch, Other }
-
-// big-endian encoding of a 64-bit version
-pub open spec fn be8(v: u64) -> Seq<u8> {
-    seq![(v >> 56) as u8, (v >> 48) as u8, (v >> 40) as u8, (v >> 32) as u8, (v >> 24) as u8, (v >> 16) as u8, (v >> 8) as u8, v as u8]
-}
-#[verifier::external_body]
-pub fn vx_be8_u64(v: u64) -> (r: [u8; 8]) ensures r@ == be8(v) { v.to_be_bytes() }
-#[verifier::external_body]
-pub fn vx_vec_eq(a: &Vec<u8>, b: &Vec<u8>) -> (r: bool) ensures r == (a@ == b@) { a == b }
-
-// u64::from_be_bytes(vv[..8].try_into().unwrap()) and vv[8..].to_vec(): panic (abort) on records shorter than 8 bytes
-pub uninterp spec fn unbe8(s: Seq<u8>) -> u64;
-#[verifier::external_body]
-pub proof fn axiom_unbe8(v: u64) ensures unbe8(be8(v)) == v {}
-#[verifier::external_body]
-pub fn vx_u64_from_be8(vv: &[u8]) -> (r: u64) ensures vv@.len() >= 8, r == unbe8(vv@.take(8)) { unimplemented!() }
-#[verifier::external_body]
-pub fn vx_skip8(vv: &[u8]) -> (r: Vec<u8>) ensures vv@.len() >= 8, r@ == vv@.skip(8) { unimplemented!() }
-
-// BTreeMap<String, u64>
-#[verifier::external_body] pub struct VxVerMap { _p: u8 }
-impl VxVerMap {
-    pub uninterp spec fn view(&self) -> Map<Seq<char>, u64>;
-    #[verifier::external_body]
-    pub fn get(&self, key: &str) -> (r: Option<&u64>)
-        ensures r.is_some() == self@.dom().contains(key@), r.is_some() ==> *(r->Some_0) == self@[key@] { unimplemented!() }
-    #[verifier::external_body]
-    pub fn insert(&mut self, key: String, v: u64) -> (r: Option<u64>) ensures final(self)@ == old(self)@.insert(key@, v) { unimplemented!() }
-    #[verifier::external_body]
-    pub fn new() -> (r: VxVerMap) ensures r@ == Map::<Seq<char>, u64>::empty() { unimplemented!() }
-    // `for (key, value) in staged.into_iter() { self.insert(key, value); }`
-    #[verifier::external_body]
-    pub fn vx_extend(&mut self, staged: VxVerMap) ensures final(self)@ == old(self)@.union_prefer_right(staged@) { unimplemented!() }
-}
-// redb::Database with the single table `kv` (R5): committed content; a write transaction is a private copy
-#[verifier::external_body] pub struct Database { _p: u8 }
-#[verifier::external_body] pub struct VxWriteTx { _p: u8 }
-impl Database {
-    pub uninterp spec fn view(&self) -> Map<Seq<char>, Seq<u8>>;
-    // begin_read + open_table + get(key).expect(..).unwrap() + value(): the committed bytes of an existing key
-    #[verifier::external_body]
-    pub fn vx_read(&self, key: &str) -> (r: Vec<u8>) ensures self@.dom().contains(key@), r@ == self@[key@] { unimplemented!() }
-    #[verifier::external_body]
-    pub fn vx_read_opt(&self, key: &str) -> (r: Option<Vec<u8>>)
-        ensures r.is_some() == self@.dom().contains(key@), r.is_some() ==> (r->Some_0)@ == self@[key@] { unimplemented!() }
-    #[verifier::external_body]
-    pub fn vx_begin_write(&self) -> (r: VxWriteTx) ensures r@ == self@ { unimplemented!() }
-    // tx.commit().unwrap(): the transaction's content becomes the committed content
-    #[verifier::external_body]
-    pub fn vx_commit(&mut self, tx: VxWriteTx) ensures final(self)@ == tx@ { unimplemented!() }
-}
-impl VxWriteTx {
-    pub uninterp spec fn view(&self) -> Map<Seq<char>, Seq<u8>>;
-    // open_table(TABLE) + insert(key, bytes)
-    #[verifier::external_body]
-    pub fn vx_insert(&mut self, key: &str, v: &[u8]) ensures final(self)@ == old(self)@.insert(key@, v@) { unimplemented!() }
-    // table.get(key).expect(..).unwrap().value() inside the write transaction: sees the transaction's own writes
-    #[verifier::external_body]
-    pub fn vx_get(&self, key: &str) -> (r: Vec<u8>) ensures self@.dom().contains(key@), r@ == self@[key@] { unimplemented!() }
-    // tx.abort().unwrap(): nothing is installed
-    #[verifier::external_body]
-    pub fn vx_abort(self) { unimplemented!() }
-}
-
-//@type vls-persist/src/kvv/redb.rs :: RedbKVVStore
-//@type vls-persist/src/kvv.rs :: KVV
-
-// ------------------------------------------------------------------ spec side
-pub open spec fn enc(version: u64, value: Seq<u8>) -> Seq<u8> { be8(version) + value }
-// the version index agrees with the table: same keys, and every stored record starts with its indexed version
-pub open spec fn redb_inv(s: RedbKVVStore) -> bool {
-    &&& forall|k: Seq<char>| #[trigger] s.versions.val@.dom().contains(k) <==> s.db@.dom().contains(k)
-    &&& forall|k: Seq<char>| #[trigger] s.versions.val@.dom().contains(k) ==> s.db@[k].len() >= 8 && s.db@[k].take(8) == be8(s.versions.val@[k])
-}
-// a write is accepted iff the key is new, the version is higher, or it repeats the current version with identical content
-pub open spec fn write_ok(s: RedbKVVStore, k: Seq<char>, version: u64, value: Seq<u8>) -> bool {
-    !s.versions.val@.dom().contains(k) || version > s.versions.val@[k]
-    || (version == s.versions.val@[k] && s.db@[k] == enc(version, value))
-}
+//@include frag/redb_model.rs
 
 impl RedbKVVStore {
 
@@ -123,10 +44,10 @@ impl RedbKVVStore {
             None => !old(self).versions.val@.dom().contains(key@) }),                               //[C16.redb.get-last-write]
 //@sub /(?s)let tx = self\.db\.begin_read\(\)\.vx_expect\(\);\s*let table = tx\.open_table\(TABLE\)\.vx_expect\(\);\s*let result = table\.get\(key\)\.vx_expect\(\);/ => let result = self.db.vx_read_opt(key);
 //@sub /Self::decode_vv\(vv\.value\(\)\)/ => Self::decode_vv(vv.as_slice())
-//@proof before /if let Some\(vv\) = result/
+//@proof before /(?:if let Some\(vv\) = result|match result \{)/
         proof {
             assert(self.versions.val@.dom().contains(key@) <==> self.db@.dom().contains(key@));
-            if self.versions.val@.dom().contains(key@) { axiom_unbe8(self.versions.val@[key@]); }
+            if self.versions.val@.dom().contains(key@) { lemma_unbe8_be8(self.versions.val@[key@]); }
         }
 //@end
 
@@ -211,7 +132,7 @@ impl RedbKVVStore {
                         // entry of this batch (its version prefix would differ), so these are the committed bytes
                         assert(enc(version, value@).take(8) =~= be8(version));
                         if !found_version_mismatch && staged_versions@.dom().contains(key@) {
-                            axiom_unbe8(version); axiom_unbe8(staged_versions@[key@]);
+                            lemma_unbe8_be8(version); lemma_unbe8_be8(staged_versions@[key@]);
                             assert(false);
                         }
                     }
